@@ -7,6 +7,8 @@ cur_id = None
 for b in blocks:
     lines = b.strip().split('\n')
     head = lines[0].strip()
+    retest = 'retest' in head
+    head = head.split(' ')[0]
     # either "C01-1" or "C07" followed by two groups
     groups = []
     if '-' in head:
@@ -36,7 +38,9 @@ for b in blocks:
         meta['confirmed_by_me'] = {
             'procedure': 'seedrun.sh: in the scratch worktree: git apply patch; cargo test --workspace --offline; demo as tests/seed_demo.rs fails with the patch and passes without it',
             'lines': confirm, 'all_confirmed': ok}
+        if retest:
+            meta['first_version_missed'] = True
         meta['checks_run'] = {'command': f'git -C /repo apply patch.diff; ./verif.sh {pid} quick; git -C /repo checkout -- .',
-                              'violations_reported_for': detected, 'signatures': sigs, 'detected': pid in detected}
+                              'violations_reported_for': detected, 'signatures': sigs, 'detected': pid in detected, 'detected_by_other_property_check': [d for d in detected if d != pid]}
         json.dump(meta, open(f'{dst}/meta.json','w'), indent=1)
-        print(pid, n, 'confirmed' if ok else 'NOT-CONFIRMED', 'detected' if pid in detected else 'MISSED', sigs[:3])
+        print(pid, n, 'confirmed' if ok else 'NOT-CONFIRMED', 'detected' if pid in detected else ('MISSED (other: %s)' % detected), sigs[:3], 'RETEST' if retest else '')
